@@ -261,6 +261,14 @@ def r4(c, db):
         for x in calls_in(sc):
             if call_name(x) in (fn.name, sc.name) and "children" in norm(x) and repo.enclosing_func(x) in (sc, None, fn):
                 rec.append((x, gsc))
+            elif isinstance(x.func, ast.Attribute) and x.func.attr in ("append", "extend", "appendleft", "add") and isinstance(x.func.value, ast.Name) and "children" in norm(x) \
+                    and repo.enclosing_func(x) in (sc, None, fn):
+                # the iterative form of the same descent: the children are queued on a work list that an enclosing loop drains
+                wl = x.func.value.id
+                drained = any(isinstance(w, (ast.While, ast.For)) and any(isinstance(t, ast.Name) and t.id == wl for t in ast.walk(w.test if isinstance(w, ast.While) else w.iter))
+                              and any(y is x for y in ast.walk(w)) for w in ast.walk(sc))
+                if drained:
+                    rec.append((x, gsc))
     ok = len(rec) == 1
     if ok:
         f_ = rec[0][1].formula(rec[0][0])
